@@ -406,7 +406,7 @@ func hmacEntry(k keyStore, t *dns.TSIG, digest []byte) string {
 }
 
 // modelled reports whether every record type a framing walk of b meets is one
-// the Coq RDATA instance covers (A NS CNAME PTR MX TXT TSIG private-use).
+// the Coq RDATA instance covers (A NS CNAME SOA PTR MX TXT TSIG private-use).
 func modelled(b []byte) bool {
 	if len(b) < 12 {
 		return true
@@ -432,7 +432,7 @@ func modelled(b []byte) bool {
 		ty := binary.BigEndian.Uint16(b[o:])
 		rdlen := int(binary.BigEndian.Uint16(b[o+8:]))
 		switch {
-		case ty == 1 || ty == 2 || ty == 5 || ty == 12 || ty == 15 || ty == 16 || ty == 250:
+		case ty == 1 || ty == 2 || ty == 5 || ty == 6 || ty == 12 || ty == 15 || ty == 16 || ty == 250:
 		case ty >= 65280 && ty <= 65534:
 		default:
 			if rdlen != 0 && o+10+rdlen <= len(b) {
@@ -1271,6 +1271,14 @@ func boundaryCases(r *Rng, ks keyStore) {
 		emitStrip(craft(7, 0, 1, 0, 0, 2, q, tsigRR, rr)) // TSIG not last: the loop stops at it
 		emitStrip(craft(7, 0, 1, 0, 0, 1, q, rr))         // additional section without TSIG
 	}
+	// SOA RDATA (zone transfer envelopes) cut after every octet, RDLENGTH adjusted, and off by one
+	soaRd := append(append(nameWire("ns.a."), nameWire("root.a.")...), r.Bytes(20)...)
+	for n := 0; n <= len(soaRd); n++ {
+		emitStrip(craft(7, 0, 1, 1, 0, 1, q, rawRR(nameWire("a."), 6, 1, 5, n, soaRd[:n]), tsigRR))
+	}
+	emitStrip(craft(7, 0, 1, 1, 0, 1, q, rawRR(nameWire("a."), 6, 1, 5, len(soaRd)+1, append(append([]byte{}, soaRd...), 0)), tsigRR))
+	emitStrip(craft(7, 0, 1, 1, 0, 1, q, rawRR(nameWire("a."), 6, 1, 5, len(soaRd)-1, soaRd), tsigRR))
+	emitStrip(craft(7, 0, 1, 1, 0, 1, q, rawRR(nameWire("a."), 6, 1, 5, 2, []byte{0xC0, 12}), tsigRR)) // compressed Ns, then the end
 	// TSIG RDATA cut after every octet, RDLENGTH adjusted (the lenient field exits), and RDLENGTH off by one
 	other := rawTsigRdata(algw, 1700000000, 300, r.Bytes(20), 7, 18, r.Bytes(6))
 	for n := 0; n <= len(other); n++ {
@@ -1404,6 +1412,8 @@ func runC11(r *Rng, tier string, n int) {
 		}
 		oracleChain(r, 1+i%6, ks, i < 12 || tier == "thorough")
 	}
+	// (2b) sessions: the receive and send paths of Transfer, Conn, Client and Server over scripted connections
+	runSessions(r, tier)
 	// (3) model cases
 	boundaryCases(r, single)
 	boundaryCases(r, multi)
